@@ -287,7 +287,7 @@ impl Monitor for C17 {
         ]
     }
     fn rule(&self) -> &'static str {
-        "seeded random histories on both proxies with admin sets of 0-4 (duplicates, invalid entries), mutable and immutable instantiation, UpdateAdmins / Freeze / allowance / permission / Execute calls by current admins, removed admins, subkeys and strangers, continuing long after Freeze; after every call AdminList and all stored allowances and permissions are compared with the pre-state. distinct = (proxy kind, operation, outcome, caller class admin/former/subkey/stranger, mutable?)"
+        "seeded random histories on both proxies with admin sets of 0-4 (duplicates, invalid entries), mutable and immutable instantiation, UpdateAdmins / Freeze / allowance / permission / Execute calls by current admins, removed admins, subkeys and strangers, continuing long after Freeze; after every call AdminList and all stored allowances and permissions are compared with the pre-state. Messages an admin asks the proxy to relay TO ITSELF (UpdateAdmins / Freeze / nested Execute / garbage) are delivered inside the same transaction with the proxy as sender and judged against an explicit model (they count as calls by the proxy address; some proxies are their own admin); subkeys histories are upgraded in mid-life through the real migrate. distinct = (proxy kind, operation, outcome, caller class admin/former/subkey/stranger, mutable?)"
     }
     fn assumptions(&self) -> Vec<&'static str> {
         vec!["only executed histories are judged"]
